@@ -237,6 +237,28 @@ pub fn run_c14(ctx: &mut Ctx, shard: usize, nshards: usize) {
         }
     };
     go(ctx, vec![]);
+    // relational configurations: the compound ones as they are, the leaf ones as first / last member
+    {
+        let mut k = 0usize;
+        for c in crate::mon::writers::relational_cfgs() {
+            for h in 0..4 {
+                k += 1;
+                if k % nshards != shard || (ctx.scale < 0.5 && k % 101 != 0) {
+                    continue;
+                }
+                let how = crate::mon::writers::hows(h);
+                match &c {
+                    Cfg::Compound(_) => check_c14(ctx, &c, how),
+                    leaf => {
+                        let mut first = leaf.clone();
+                        first.set_padding(0);
+                        check_c14(ctx, &Cfg::Compound(vec![first, leafs[3].clone()]), how);
+                        check_c14(ctx, &Cfg::Compound(vec![leafs[0].clone(), leaf.clone()]), how);
+                    }
+                }
+            }
+        }
+    }
     let invalid = Cfg::App { ssrc: 1, subtype: 99, name: "x".into(), data: vec![], padding: 0 };
     for a in &leafs {
         go(ctx, vec![a.clone()]);
@@ -968,10 +990,15 @@ pub fn check_c19_cfg(ctx: &mut Ctx, cfg: &Cfg, how: How) {
     }
     ctx.class_dyn(format!("c19:{kind}:{}:{}", if cfg.padding() > 0 { "padded" } else { "unpadded" }, if dec::count(&bytes) > 0 { "count>0" } else { "count=0" }));
     // each leaf packet: generic parser gives Unknown exposing the exact bytes; converts back
-    let leafs: Vec<&Cfg> = match cfg {
-        Cfg::Compound(m) => m.iter().collect(),
-        c => vec![c],
-    };
+    // (nested compounds flatten: a compound has no header of its own)
+    fn flatten<'c>(c: &'c Cfg, out: &mut Vec<&'c Cfg>) {
+        match c {
+            Cfg::Compound(m) => m.iter().for_each(|x| flatten(x, out)),
+            leaf => out.push(leaf),
+        }
+    }
+    let mut leafs: Vec<&Cfg> = vec![];
+    flatten(cfg, &mut leafs);
     let data = drive::exact(&bytes);
     let tiles = dec::tiling(&data).unwrap_or_default();
     if tiles.len() != leafs.len() {
@@ -1130,6 +1157,31 @@ pub fn run_c19(ctx: &mut Ctx, shard: usize, nshards: usize) {
             check_c19_cfg(ctx, &c, How::default());
             check_c19_cfg(ctx, &Cfg::Compound(vec![Cfg::Rr { ssrc: 1, blocks: vec![], padding: 0 }, c.clone(), Cfg::Bye { sources: vec![1], reason: String::new(), padding: 0 }]), How::default());
             ctx.class("c19:cfg:image>=64KiB");
+        }
+    }
+    // (ii, iii relational) unknown / third-party members in nested compounds, zero padding reported either way
+    {
+        let mut k = 0usize;
+        for c in crate::mon::writers::relational_cfgs() {
+            let has_foreign = |c: &Cfg| {
+                fn walk(c: &Cfg) -> bool {
+                    match c {
+                        Cfg::Unknown { .. } | Cfg::Custom { .. } => true,
+                        Cfg::Compound(m) => m.iter().any(walk),
+                        _ => false,
+                    }
+                }
+                walk(c)
+            };
+            if !has_foreign(&c) {
+                continue;
+            }
+            for h in 0..4 {
+                k += 1;
+                if k % nshards == shard && (!tiny || k % 7 == 0) {
+                    check_c19_cfg(ctx, &c, crate::mon::writers::hows(h));
+                }
+            }
         }
     }
     // (ii)+(iii) unknown / custom configurations alone and inside compounds
